@@ -27,7 +27,11 @@ CHECKS = {
     "C03": {"parts": [FLOW]},
     "C04": {"parts": [FLOW, preempt(V1_POINTS + ["pkg/lifecycle/stream/fanout.go"])]},
     "C06": {"parts": [FLOW, PREEMPT]},
-    "C07": {"parts": [FLOW]},
+    "C07": {"rule": "window arithmetic: every window size and threshold 0..5 (0..6 thorough) x every outcome sequence up to length 10/9 (14/12) x every batch partition (v2) on the real dlqWindow of both engines and, through the exported handlers, sizes 0..3 (0..5) x length 7 (10) against one reference; routing: schedules of the scripted plugins on the real full stack",
+            "parts": [FLOW,
+                      {"name": "window-v1", "pkg": "pkg/lifecycle/stream", "harness": "c07w1", "run": "^TestVerifC07WindowV1$"},
+                      {"name": "window-v2", "pkg": "pkg/lifecycle-poc/funnel", "harness": "c07w2", "run": "^TestVerifC07WindowV2$", "shards": 8, "shards_thorough": 16},
+                      {"name": "parity", "pkg": "pkg/lifecycle/dlqparity", "harness": "c07par", "run": "^TestVerifC07Parity$", "shards": 8, "shards_thorough": 16}]},
     "C12": {"parts": [FLOW]},
     "C10": {"parts": [FLOW]},
     "C11": {"parts": [FLOW, preempt(["pkg/lifecycle/service.go", "pkg/lifecycle-poc/service.go"])]},
